@@ -75,7 +75,7 @@ func (e *Encoder) processMessage(packet server.LoRaMessage) {
 		// The counter is taken from the store, not from the copy of the device the uplink
 		// handler read: reserving it is one statement, and it is stored before the frame
 		// can leave.
-		fcntDn, err := e.context.Storage.NextFCntDn(packet.FrameContext.Device.DeviceEUI)
+		fcntDn, err := e.context.Storage.NextFCntDn(packet.FrameContext.Device.DeviceEUI, packet.FrameContext.Device.NwkSKey)
 		if err != nil {
 			lg.Error("Unable to update frame counter for downstream message to device with EUI %s: %v. Not sending message.",
 				packet.FrameContext.Device.DeviceEUI,
